@@ -30,6 +30,7 @@ import (
 	"github.com/ipfs/ipfs-cluster/datastore/inmem"
 
 	hraft "github.com/hashicorp/raft"
+	cid "github.com/ipfs/go-cid"
 	rpc "github.com/libp2p/go-libp2p-gorpc"
 
 	"verifharness/common"
@@ -141,6 +142,25 @@ func opsTok(l []op) string {
 	return strings.Join(s, ";")
 }
 
+// undefIdx is the name of cid.Undef in op tokens: as the pin's cid, or as its reference (a pointer to
+// cid.Undef, what the first shard pin of a sharded add carried before /repo 9d8b946).
+const undefIdx = 63
+
+func pinOf(tok string) *api.Pin {
+	p := common.PinOf(tok)
+	f := strings.Split(tok, "/")
+	if len(f) >= 13 {
+		if f[0] == strconv.Itoa(undefIdx) {
+			p.Cid = cid.Undef
+		}
+		if f[12] == strconv.Itoa(undefIdx) {
+			u := cid.Undef
+			p.Reference = &u
+		}
+	}
+	return p
+}
+
 // tracing: the Consensus of the current case runs with Tracing enabled (LogOps carry a span context
 // and a tag map). Derived from the case itself so that a replay makes the same choice.
 var tracing bool
@@ -156,7 +176,7 @@ func (o op) encode() []byte {
 	if tracing {
 		enc = raft.VerifEncodeTracedOp
 	}
-	b, err := enc(common.PinOf(o.tok), t)
+	b, err := enc(pinOf(o.tok), t)
 	if err != nil {
 		panic(err)
 	}
